@@ -1,7 +1,7 @@
 #!/bin/sh
 # runs every seeded change against the quick tier of the check(s) that should catch it; prints one line each
 cd /verif
-for d in seeded/C*/; do
+for d in seeded/${1:-C}*/; do
   id=$(basename $d)
   prop=$(python3 -c "import json;m=json.load(open('$d/meta.json'));print(m.get('check', m['property']))")
   tier=$(python3 -c "import json;m=json.load(open('$d/meta.json'));print(m.get('tier','quick'))")
